@@ -123,6 +123,8 @@ type Result struct {
 	Linearized  int             `json:"linearized,omitempty"`
 	Confounded  int             `json:"confounded,omitempty"`
 	Note        string          `json:"note,omitempty"`
+	NodeTypes   map[string]int  `json:"node_types,omitempty"` // node types evaluated by the reference evaluations
+	Funcs       map[string]int  `json:"funcs,omitempty"`      // callables called by the reference evaluations
 	DocRanges   []AddrRange     `json:"-"`
 	NontrivKeys []string        `json:"nontriv_keys,omitempty"` // C07: hashes of (program, document) pairs of copying/transform families
 }
